@@ -111,6 +111,11 @@ structure ClosureIdx where
 structure ClosureFold where
   g : Nat → Nat → Nat
 
+/-- `ConIterValues<'a, C>` / `ConIterIdsAndValues<'a, C>`: the iterator adaptors behind `values()` / `ids_and_values()` -/
+structure ValuesH where
+  con_iter : ItH
+  deriving Repr
+
 def op_gt (a b : Nat) : PF ρ Bool := pure (decide (a > b))
 def op_add (a b : Nat) : PF ρ Nat := if a + b < W then pure (a + b) else LProg.panic "overflow"
 /-- `assert!(c, ..)` -/
@@ -139,6 +144,14 @@ class MNext (ρ : Type) (C : Type) (R : outParam Type) where
 export MNext (m_next)
 instance : MNext ρ ItH (Option Nat) := ⟨ItH.next⟩
 instance : MNext ρ BufH (Option (NextChunk Span)) := ⟨BufH.next⟩
+
+/-- `Option::map` -/
+def m_map {α β : Type} (o : Option α) (f : α → PF ρ β) : PF ρ (Option β) :=
+  match o with
+  | none => pure none
+  | some a => do
+    let b ← f a
+    pure (some b)
 
 /-! ## calling the user's closure -/
 
